@@ -37,6 +37,7 @@ type frame struct {
 	modWhole  map[string]bool     // top-level modifies: whole regions
 	modRefs   map[string][]string // top-level modifies: region -> refs
 	modKnown  bool
+	mayPanic  bool
 }
 
 type loopInfo struct {
@@ -48,6 +49,7 @@ type loopInfo struct {
 	dec0    string
 	phiTerm map[*ssa.Phi]Term
 	frameRegs []string
+	lets map[string]Term
 }
 
 func isBackEdge(u, h *ssa.BasicBlock) bool { return h.Dominates(u) }
@@ -431,7 +433,7 @@ func (c *FnCtx) execBlock(fr *frame, b *ssa.BasicBlock, st0 *State, g0 string) {
 }
 
 func (c *FnCtx) panicAt(fr *frame, guard, what string) {
-	mayPanic := false
+	mayPanic := fr.mayPanic
 	if fr.con != nil && fr.con.MayPanic {
 		mayPanic = true
 	}
@@ -516,6 +518,16 @@ func (c *FnCtx) loopEnv(fr *frame, li *loopInfo, st *State, phiVals map[string]T
 	for k, v := range phiVals {
 		env.names[k] = v
 	}
+	if len(li.lets) > 0 {
+		nl := map[string]Term{}
+		for k, v := range env.lets {
+			nl[k] = v
+		}
+		for k, v := range li.lets {
+			nl[k] = v
+		}
+		env.lets = nl
+	}
 	return env
 }
 
@@ -536,6 +548,13 @@ func (c *FnCtx) loopHeader(fr *frame, b *ssa.BasicBlock, li *loopInfo, st *State
 	}
 	if li.spec != nil {
 		env := c.loopEnv(fr, li, st, entry)
+		li.lets = map[string]Term{}
+		for _, l := range li.spec.Lets {
+			t := env.eval(l.E, "")
+			t.S = c.define("ll_"+l.Label, t.Sort, t.S)
+			li.lets[l.Label] = t
+		}
+		env = c.loopEnv(fr, li, st, entry)
 		for i, inv := range li.spec.Inv {
 			t := c.evalBool(env, inv.E)
 			c.oblige("inv-entry", fmt.Sprintf("inv-entry#%s.%s", name, clauseName(inv, i)), guard, t, inv.Src)
